@@ -214,6 +214,14 @@ func LocalStep() uint64 { return s.lstep[s.cur] }
 //go:norace
 func LastSite(c int) int32 { return s.lastSite[c] }
 
+var stampSeq uint64
+
+// Stamp returns the next value of a global event sequence number. Execution is
+// serialised, so stamps are totally ordered consistently with real time and never tie.
+//
+//go:norace
+func Stamp() uint64 { stampSeq++; return stampSeq }
+
 // NAlive returns the number of clients that have not finished.
 //
 //go:norace
